@@ -2,6 +2,7 @@
 two's-complement range.  Oracle: independent two's-complement model."""
 
 import itertools
+import re
 
 from hypothesis import strategies as st
 
@@ -395,9 +396,10 @@ def replay(case, rec):
         n = args[0]
         places = args[1] if len(args) > 1 else None
         if isinstance(n, str):
-            try:
+            # (python's int() is itself lenient: "1_0", " 10", "١٠")
+            if re.fullmatch(r'-?[0-9]+', n):
                 check_dec2(ctx, name, int(n), places, as_text=True)
-            except ValueError:
+            else:
                 ctx.run(func, tuple(args), ANYERR, 'malformed-number', True)
         else:
             check_dec2(ctx, name, n, places)
